@@ -643,8 +643,10 @@ func stats(c Case) (nt bool, labels []string) {
 	return nested && len(tr) >= 2, labels
 }
 
-func TestArgs(t *testing.T) {
-	rapid.Check(t, func(t *rapid.T) {
+func TestArgs(t *testing.T) { rapid.Check(t, propArgs) }
+
+func propArgs(t *rapid.T) {
+	{
 		b := genCase(t, "")
 		if sig, err := checkPositive(b); err != nil {
 			p := rec.Violate("TestArgs", b.c, sig+": "+err.Error())
@@ -671,11 +673,13 @@ func TestArgs(t *testing.T) {
 			q, vars := render(b.c)
 			rec.Sample(b.c.Struct, map[string]interface{}{"query": q, "vars": vars})
 		}
-	})
+	}
 }
 
-func TestArgsNegative(t *testing.T) {
-	rapid.Check(t, func(t *rapid.T) {
+func TestArgsNegative(t *testing.T) { rapid.Check(t, propArgsNegative) }
+
+func propArgsNegative(t *rapid.T) {
+	{
 		b := genCase(t, "")
 		neg, wrong, err := checkNegative(t, b)
 		if err != nil {
@@ -688,7 +692,7 @@ func TestArgsNegative(t *testing.T) {
 		cb, _ := json.Marshal(b.c)
 		parts := strings.Split(neg, ":")
 		rec.Case(string(cb)+neg+wrong, b.c.Struct != "scalars", "neg:"+parts[0])
-	})
+	}
 }
 
 func TestReplay(t *testing.T) {
